@@ -4,3 +4,4 @@ open Genq.Main
 #print axioms C20_fail_no_write
 #print axioms C20_success_exact
 #print axioms C20_write_fault_reported
+#print axioms C20_faults_confined
